@@ -61,6 +61,11 @@ def run(ctx):
         ctx.count('probe')
         i, m = pk.both(ctx.drv, data, False, True, want=['plain', 'files']); ctx.evaluations += 1
         compare_keys(ctx, 'attributes / files (probe)', data, False, True, i, m, VIEWS + ['files'])
+        if name == 'P46-footers-whose-numbers-differ-in-length':
+            # several parts of one kind feed the attribute in PATH order: "word/footer10.xml" < "word/footer2.xml"
+            ft = str(i.get('footer', {}).get('ok'))
+            if not ('«3»' in ft and '«2»' in ft and ft.index('«3»') < ft.index('«2»')):
+                ctx.fail('parts of one kind do not feed the attribute in path order', case_payload(data), i.get('footer'), {'expected order': ['word/footer10.xml', 'word/footer2.xml']}, features=['path-order'])
         if name == 'P16-word-word':
             if 'head-in-word-word' not in str(i.get('header', {}).get('ok')):
                 ctx.fail('a related part is resolved to a path that is not a member of the archive', case_payload(data), i['header'], features=['target-begins-with-referring-directory'])
